@@ -1,5 +1,6 @@
 //! hx-app: conformance harness for the parts of /repo that live in the root crate `passage`
 //! (configuration types, construction of the Dyn* adapters from configuration).
+mod cfgread;
 mod routing;
 mod serve;
 mod tables;
@@ -8,6 +9,7 @@ fn main() {
     let args: Vec<String> = std::env::args().collect();
     let sub = args.get(1).map(|s| s.as_str()).unwrap_or("");
     match sub {
+        "config" => cfgread::main(&args[2..]),
         "routing" => routing::main(&args[2..]),
         "serve" => serve::main(&args[2..]),
         "tables" => tables::main(&args[2..]),
